@@ -241,6 +241,10 @@ def rule_cleanup(ctx, facts, prefix="C08-R5"):
 def run(ctx):
     facts = ctx.bin
     rule_err_arms(ctx, facts)
+    # a write error can only be seen if the buffered data is flushed, and the flush examined, before
+    # the file handle is dropped: the completeness rules of C07 are premises here as well
+    from . import c07
+    c07.rule_complete_before_publish(ctx, facts, prefix="C08-R1/C07")
     rule_reduce_fold(ctx, facts)
     rule_driver_reads_failure(ctx, facts)
     # R4: dispatcher (shared with C18-R4's dispatch part)
